@@ -125,6 +125,11 @@ class _FuseConvPadBase(orp.RewriteRuleClassBase):
             )
 
         # Pad constraints: inputs
+        if len(pad_node.inputs) < 2 or pad_node.inputs[1] is None:
+            # Before opset 11, 'pads' is an attribute of Pad and not an input.
+            return check_result.fail(
+                f"{pad_node.name} ({pad_node.op_type}) has no 'pads' input."
+            )
         if (pads := pad_node.inputs[1]).const_value is None:
             return check_result.fail(f"{pads.name} is not a constant/initializer.")
         if len(pad_node.inputs) > 2 and (constant_value := pad_node.inputs[2]) is not None:
